@@ -931,6 +931,13 @@ impl Pool for PoolF {
             "neg" => freg_map!(self.regs[a - 1].clone(), v => fv_map!(v, p => if f == "r" { -&p } else { -p })),
             "abs" => freg_map!(self.regs[a - 1].clone(), v => fv_map!(v, p => p.abs())),
             "sqr" => freg_map!(self.regs[a - 1].clone(), v => fv_map!(v, p => p.sqr())),
+            // integral / fractional parts through every accessor: the same number must come back == whichever way it was cut
+            "trunc" => freg_map!(self.regs[a - 1].clone(), v => fv_map!(v, p => p.trunc())),
+            "splitint" => freg_map!(self.regs[a - 1].clone(), v => fv_map!(v, p => p.split_at_point().0)),
+            "splitfract" => freg_map!(self.regs[a - 1].clone(), v => fv_map!(v, p => p.split_at_point().1)),
+            "fract" => freg_map!(self.regs[a - 1].clone(), v => fv_map!(v, p => p.fract())),
+            "floor" => freg_map!(self.regs[a - 1].clone(), v => fv_map!(v, p => p.floor())),
+            "round" => freg_map!(self.regs[a - 1].clone(), v => fv_map!(v, p => p.round())),
             "shl" => freg_map!(self.regs[a - 1].clone(), v => fv_map!(v, p => if f == "a" { let mut x = p; x <<= n as isize; x } else { p << (n as isize) })),
             "shr" => freg_map!(self.regs[a - 1].clone(), v => fv_map!(v, p => if f == "a" { let mut x = p; x >>= n as isize; x } else { p >> (n as isize) })),
             "withprec" => freg_map!(self.regs[a - 1].clone(), v => fv_map!(v, p => p.with_precision(n as usize).value())),
@@ -1470,6 +1477,17 @@ pub fn add_probes(case: &mut Value, rng: &mut Rng, kind: &str, fin_t: &Value) {
                     _ => 64 * cap + k,
                 };
                 extra.push(json!({"op": "setbit", "d": r + 1, "a": r + 1, "n": n}));
+            } else if len >= 3 && cap > len && rng.coin() && ts.len() >= 2 {
+                // grow the value in place until its buffer is exactly full (len == capacity), then divide it BY VALUE by a
+                // power of two of two words (2^64 .. 2^127): the in-place word shifts of the division work on the whole buffer,
+                // and a read or write one word past it lands on the guard page
+                let other = if r == 0 { 2 } else { 1 };
+                let top_bits = 64 * (cap - len) - 1;
+                extra.push(json!({"op": "shl", "d": r + 1, "a": r + 1, "n": top_bits.saturating_sub(rng.below(2)), "f": "a"}));
+                let mut m = vec![0u8; 8 + rng.below(8) as usize];
+                m.push(1 << rng.below(8));
+                extra.push(json!({"op": "const", "d": other, "f": if kind == "U" { "le" } else { "parts" }, "c": wire_mag(false, &m)}));
+                extra.push(json!({"op": *rng.pick(&["div", "rem", "div"]), "d": r + 1, "a": r + 1, "b": other, "f": *rng.pick(&["vv", "av", "vr"])}));
             } else if len >= 4 {
                 let j = 1 + rng.below((len - 3).min(3));
                 let rest = len - j;
